@@ -414,6 +414,21 @@ fn extra_programs() -> Vec<Prog> {
     ]));
     // repeat.5 around an if
     v.push(p(vec![op("push.0"), Node::Repeat(5, vec![op("adv_push.1"), Node::If(vec![op("add.1")], vec![op("add.100")])])]));
+    // repeat counts: every count up to 20 and around the powers of two up to 2^8 (the assembler unrolls
+    // repeat into spans / join trees whose shape depends on the count), with a counting body, with a body
+    // that carries an immediate (operation groups and batches fill differently), nested in each other,
+    // around a call-free exec with locals, and around a zero-iteration while (a control block per iteration)
+    let counts: Vec<u32> = (1..=20).chain([31, 32, 33, 63, 64, 65, 100, 127, 128, 129, 255, 256, 257]).collect();
+    for &n in &counts {
+        v.push(p(vec![op("push.0"), Node::Repeat(n, vec![op("add.1")])]));
+        v.push(p(vec![op("push.1"), Node::Repeat(n, vec![op("push.3"), op("add")])]));
+        v.push(p(vec![op("push.0"), Node::Repeat(n, vec![op("push.0"), Node::While(vec![op("push.0")]), op("add.1")])]));
+    }
+    for n in 1..=9u32 {
+        for m in 1..=9u32 {
+            v.push(p(vec![op("push.0"), Node::Repeat(n, vec![op("add.1"), Node::Repeat(m, vec![op("add.100")])])]));
+        }
+    }
     v
 }
 
